@@ -4,15 +4,21 @@
 //
 //   csv  <delim> <hdr> <trim> <oidx> <filter> <hexbytes>   read_csv(istringstream(bytes), params)
 //   xrff <filter> <hexbytes>                                read_xrff(istringstream(bytes), params)
+//   csv2  <delim> <hdr> <trim> <keep> <oidx> <hook> <hexbytes>   read_csv with every member of params set
+//   xrff2 <delim> <hdr> <trim> <keep> <oidx> <hook> <hexbytes>   read_xrff with the same params
+//   file <hexext> <delim> <hdr> <trim> <keep> <oidx> <hook> <hexbytes>   dataframe::read(path "t<pid><ext>", params)
 //   xdoc <hexbytes>                                         the logical XRFF document tinyxml2 hands to read_xrff
 //   parse <delim> <trim> <keep> <hexbytes>                  pocket_csv::parser over the bytes, every record
 //   sniff <hexbytes>                                        pocket_csv::sniffer
 //   num  <hexstring>                                        is_number / std::stod / std::stoi of one string
 //   var  <delim> <hdr> <trim> <oidx> <typing> <hexbytes>    read + setup_terminals + run every variable
+//   var2 <csv|xrff> <delim> <hdr> <trim> <keep> <oidx> <hook> <typing> <data|ctor> <hexbytes>
+//                                                           read (either format) + setup_terminals: every
+//                                                           inserted symbol (variables, state constants)
 //
 //   delim : byte value, 0 = sniff          hdr  : -1 guess, 0 no header, 1 header
-//   oidx  : -1 = no output column          filter: 0 = none, m_k = keep a record iff
-//                                                  (sum of its bytes + number of fields) % m != k
+//   oidx  : -1 = no output column          filter / hook: see make_filter
+//   keep  : 1 = dialect.quoting KEEP_QUOTES
 // Answers: `ok ...` (canonical dump), `exc <kind>`; a sanitizer abort kills the process (the
 // Python side restarts it and records the death for that request).
 #include "common/verif.h"
@@ -24,7 +30,11 @@
 #include "utility/pocket_csv.h"
 #include "tinyxml2/tinyxml2.h"
 
+#include <filesystem>
+#include <fstream>
 #include <variant>
+
+#include <unistd.h>
 
 namespace
 {
@@ -47,17 +57,73 @@ std::string val(const value_t &v)
   }
 }
 
+// The hook language (the same in lean/Vita/C09/Proto.lean and checks/c09.py): primitives joined
+// by `+`, applied in order on the record handed over by reference; the first rejecting one rejects.
+//   0            no hook (nullptr)            <m>_<k> / s<m>_<k>  keep iff (#fields + sum of bytes) % m != k
+//   w<m>_<k>     keep iff (sum_i (i+1)*(1 + sum of the bytes of field i)) % m != k   (position dependent)
+//   c<j>_<m>_<k> keep iff there is no field j or (sum of the bytes of field j + its length) % m != k
+//   U<j>         field j (if any) in upper case    X<i>_<j>  fields i and j (if both exist) swapped
+struct prim { char op; std::vector<unsigned long> a; };
+
 dataframe::filter_hook_t make_filter(const std::string &spec)
 {
   if (spec == "0") return nullptr;
-  const auto us(spec.find('_'));
-  const unsigned long m(std::stoul(spec.substr(0, us))), k(std::stoul(spec.substr(us + 1)));
-  return [m, k](dataframe::record_t &r)
+  std::vector<prim> prims;
+  std::size_t at(0);
+  while (at <= spec.size())
   {
-    unsigned long s(r.size());
-    for (const auto &f : r)
-      for (unsigned char c : f) s += c;
-    return s % m != k;
+    const auto plus(std::min(spec.find('+', at), spec.size()));
+    std::string p(spec.substr(at, plus - at));
+    at = plus + 1;
+    if (p.empty()) throw std::invalid_argument("hook");
+    prim q;
+    q.op = std::isdigit((unsigned char)p[0]) ? 's' : p[0];
+    std::string body(std::isdigit((unsigned char)p[0]) ? p : p.substr(1));
+    std::size_t b(0);
+    while (b <= body.size())
+    {
+      const auto us(std::min(body.find('_', b), body.size()));
+      q.a.push_back(std::stoul(body.substr(b, us - b)));
+      b = us + 1;
+    }
+    const std::size_t want(q.op == 'c' ? 3 : q.op == 'U' ? 1 : 2);
+    if (std::string("swcUX").find(q.op) == std::string::npos || q.a.size() != want)
+      throw std::invalid_argument("hook");
+    if ((q.op == 's' || q.op == 'w') && q.a[0] == 0) throw std::invalid_argument("hook");
+    if (q.op == 'c' && q.a[1] == 0) throw std::invalid_argument("hook");
+    prims.push_back(q);
+  }
+  const auto bytes([](const std::string &f) { unsigned long s(0); for (unsigned char c : f) s += c; return s; });
+  return [prims, bytes](dataframe::record_t &r)
+  {
+    for (const auto &q : prims)
+      switch (q.op)
+      {
+      case 's':
+      {
+        unsigned long s(r.size());
+        for (const auto &f : r) s += bytes(f);
+        if (s % q.a[0] == q.a[1]) return false;
+        break;
+      }
+      case 'w':
+      {
+        unsigned long s(0);
+        for (std::size_t i(0); i < r.size(); ++i) s += (i + 1) * (1 + bytes(r[i]));
+        if (s % q.a[0] == q.a[1]) return false;
+        break;
+      }
+      case 'c':
+        if (q.a[0] < r.size() && (bytes(r[q.a[0]]) + r[q.a[0]].size()) % q.a[1] == q.a[2]) return false;
+        break;
+      case 'U':
+        if (q.a[0] < r.size())
+          for (auto &c : r[q.a[0]]) if (c >= 'a' && c <= 'z') c = char(c - 32);
+        break;
+      default:
+        if (q.a[0] < r.size() && q.a[1] < r.size()) std::swap(r[q.a[0]], r[q.a[1]]);
+      }
+    return true;
   };
 }
 
@@ -108,6 +174,23 @@ dataframe::params make_params(const std::vector<std::string> &t, std::size_t at)
   p.dialect.trim_ws = t[at + 2] == "1";
   const long o(std::stol(t[at + 3]));
   if (o < 0) p.output_index = std::nullopt; else p.output_index = std::size_t(o);
+  return p;
+}
+
+// <delim> <hdr> <trim> <keep> <oidx> <hook>: every member of dataframe::params / pocket_csv::dialect.
+// The explicit settings go through the fluent interface (header() / no_header() / output() /
+// no_output()) - that is what callers use.
+dataframe::params make_params2(const std::vector<std::string> &t, std::size_t at)
+{
+  dataframe::params p;
+  p.dialect.delimiter = char(std::stoi(t[at]));
+  const int h(std::stoi(t[at + 1]));
+  if (h > 0) p.header(); else if (h == 0) p.no_header();
+  p.dialect.trim_ws = t[at + 2] == "1";
+  p.dialect.quoting = t[at + 3] == "1" ? pocket_csv::dialect::KEEP_QUOTES : pocket_csv::dialect::REMOVE_QUOTES;
+  const long o(std::stol(t[at + 4]));
+  if (o < 0) p.no_output(); else p.output(std::size_t(o));
+  p.filter = make_filter(t[at + 5]);
   return p;
 }
 
@@ -171,9 +254,11 @@ struct probe_params : symbol_params
 };
 }  // namespace
 
-int main()
+int main(int, char *argv[])
 {
   log::reporting_level = log::lOFF;
+  // scratch files live next to the executable (the build directory), never under /tmp
+  const std::filesystem::path scratch(std::filesystem::absolute(argv[0]).parent_path());
 
   std::string line;
   while (std::getline(std::cin, line))
@@ -205,6 +290,58 @@ int main()
         dataframe d;
         const auto n(d.read_xrff(is, p));
         return dump(d, n);
+      });
+    }
+    else if (op == "csv2" && t.size() == 8)
+    {
+      ans = guarded([&]
+      {
+        const auto p(make_params2(t, 1));
+        std::istringstream is(verif::unhex(t[7]));
+        dataframe d;
+        const auto n(d.read_csv(is, p));
+        return dump(d, n);
+      });
+    }
+    else if (op == "xrff2" && t.size() == 8)
+    {
+      ans = guarded([&]
+      {
+        const auto p(make_params2(t, 1));    // dialect and output_index must be ignored by read_xrff
+        std::istringstream is(verif::unhex(t[7]));
+        dataframe d;
+        const auto n(d.read_xrff(is, p));
+        return dump(d, n);
+      });
+    }
+    else if (op == "file" && t.size() == 9)
+    {
+      // file <hex extension> <delim> <hdr> <trim> <keep> <oidx> <hook> <hexbytes>
+      // dataframe::read(path, params): the format is chosen by the extension of the file name
+      ans = guarded([&]
+      {
+        const auto p(make_params2(t, 2));
+        const std::filesystem::path dir(scratch / "c09_files");
+        std::filesystem::create_directories(dir);
+        const auto fn(dir / ("t" + std::to_string(::getpid()) + verif::unhex(t[1])));
+        {
+          std::ofstream out(fn, std::ios::binary);
+          out << verif::unhex(t[8]);
+        }
+        dataframe d;
+        std::string r;
+        try
+        {
+          const auto n(d.read(fn, p));
+          r = dump(d, n);
+        }
+        catch (...)
+        {
+          std::filesystem::remove(fn);
+          throw;
+        }
+        std::filesystem::remove(fn);
+        return r;
       });
     }
     else if (op == "xdoc" && t.size() == 2)
@@ -299,6 +436,79 @@ int main()
           }
         }
         return o.str();
+      });
+    }
+
+    else if (op == "var2" && t.size() == 11)
+    {
+      // var2 <csv|xrff> <delim> <hdr> <trim> <keep> <oidx> <hook> <typing> <data|ctor> <hexbytes>
+      // read + setup_terminals; every symbol setup_terminals inserted, in insertion order (the
+      // opcodes of the symbols of a process are consecutive), with what it evaluates to.
+      ans = guarded([&]
+      {
+        const auto p(make_params2(t, 2));
+        const auto ty(t[8] == "1" ? typing::strong : typing::weak);
+        std::istringstream is(verif::unhex(t[10]));
+        std::unique_ptr<src_problem> prp;
+        opcode_t first(0);
+        if (t[9] == "ctor")        // src_problem(std::istream &, typing): default parameters
+        {
+          first = variable("probe", 0).opcode() + 1;
+          prp = std::make_unique<src_problem>(is, ty);
+        }
+        else
+        {
+          prp = std::make_unique<src_problem>();
+          if (t[1] == "xrff") prp->data().read_xrff(is, p); else prp->data().read_csv(is, p);
+          first = variable("probe", 0).opcode() + 1;
+          prp->setup_terminals(ty);
+        }
+        auto &pr(*prp);
+        const auto &d(pr.data());
+        const opcode_t last(variable("probe", 0).opcode());
+        std::ostringstream o;
+        std::size_t n(0);
+        for (opcode_t c(first); c < last; ++c)
+          if (const symbol *s = pr.sset.decode(c))
+          {
+            ++n;
+            const auto *tm(s->terminal() ? static_cast<const terminal *>(s) : nullptr);
+            if (tm && tm->input())
+            {
+              o << " v " << hex(s->name()) << ' ' << s->category() << ' ' << std::min<std::size_t>(3, d.size());
+              std::size_t row(0);
+              for (const auto &e : d)
+              {
+                probe_params pp;
+                pp.ex = &e.input;
+                const value_t direct(s->eval(pp));
+                o << ' ' << pp.asked << ' ' << val(direct);
+                if (s->category() == 0)   // i_mep(vector<gene>) starts at locus (0, 0)
+                {
+                  const i_mep ind({gene(*tm)});
+                  o << ' ' << val(run(ind, e.input));
+                }
+                else
+                  o << " -";
+                if (++row >= 3) break;
+              }
+            }
+            else if (tm)
+            {
+              probe_params pp;
+              const std::vector<value_t> none;
+              pp.ex = &none;
+              o << " k " << hex(s->name()) << ' ' << s->category() << ' ' << val(s->eval(pp));
+            }
+            else
+              o << " f " << hex(s->name()) << ' ' << s->category();
+          }
+        std::ostringstream h;
+        h << "ok S " << n << o.str() << " P " << pr.sset.categories() << ' ' << pr.variables() << ' '
+          << pr.classes() << " C " << d.columns.size();
+        for (const auto &c : d.columns)
+          h << ' ' << hex(c.name) << ' ' << int(c.domain) << ' ' << c.states.size();
+        return h.str();
       });
     }
 
